@@ -473,4 +473,29 @@ theorem readAllWith_rep_any (c : Codec) (hg : Good c) (ks : List Nat) (r : Reade
         have := ih r' pend' bs' (fun k hk => hks k (by simp [hk])) hl' hsm' hrep'
         simp only [this, Option.map_some, htot]
 
+/-- Reads of any sizes, then WriteTo: together they deliver everything exactly once — in particular the part of a decoded
+block that a short Read left pending in `output[offset:]` is written by WriteTo from `offset`, not from the start -/
+theorem readsThenWriteTo_rep (c : Codec) (hg : Good c) (ks : List Nat) (r : Reader) (pend : Bytes) (bs : List Bytes)
+    (hks : ∀ k ∈ ks, 1 ≤ k) (hsm : ∀ b ∈ bs, (c.enc b).length < 256 ^ 4) (hrep : Rep c r pend bs) :
+    readsThenWriteTo c r ks = some (pend ++ bs.flatten) := by
+  induction ks generalizing r pend bs with
+  | nil =>
+    simp only [readsThenWriteTo]
+    exact writeTo_rep c hg bs (r.rest.length + 2) r pend (by have := hrep.blocks_le_rest; omega) hsm hrep
+  | cons k ks ih =>
+    have hk : 1 ≤ k := hks k (by simp)
+    have hfuel : bs.length + 2 ≤ r.rest.length + 2 := by have := hrep.blocks_le_rest; omega
+    have hr := read_rep_any c hg k hk bs.length bs (r.rest.length + 2) r pend (Nat.le_refl _) hfuel hsm hrep
+    unfold ReadOK at hr
+    simp only [readsThenWriteTo]
+    cases hrd : read c (r.rest.length + 2) r k with
+    | mk r' res =>
+      rw [hrd] at hr
+      simp only at hr
+      rcases hr with ⟨hnil, he⟩ | ⟨d, pend', bs', _, he, hrep', htot, hsm'⟩
+      · subst he; simp [hnil]
+      · subst he
+        have := ih r' pend' bs' (fun k hk => hks k (by simp [hk])) hsm' hrep'
+        simp only [this, Option.map_some, htot]
+
 end KV.Model.Xerial
